@@ -9,7 +9,9 @@ Tie (correspondence, every run): random pairs of maps over registers (plain and 
 constants, registers, small operator trees, slices, vectors from earlier merges), with and without
 path conditions, merged by the real `amoco.cas.mapper.merge` under every widening / complexity setting
 vs the model on canonical dumps (leaves = renderings, complexity scaled exactly); `vec.simplify` alone
-on random child lists.  Pointer (memory) locations are covered by the oracle only (partial).
+on random child lists.  Pointer (memory) locations are covered by the oracle only (partial); store-size
+asymmetries between the two maps on the ordinary-pointer and the vector-pointer paths of merge are driven
+systematically and judged byte by byte by harness/c19_extra.py.
 Oracle (property-level, independent of the model): for random concrete states, the value each map gives
 a location must be among the evaluated alternatives of the merged value, or the merged value is
 unknown (top / widened); locations written by neither map must be absent.
@@ -22,6 +24,7 @@ from amoco.cas.expressions import *
 from amoco.cas.expressions import complexity
 from amoco.cas.mapper import mapper, merge
 from amoco.config import conf
+import c19_extra
 
 SCALE = 729
 REGS = [reg(n, 32) for n in ("a", "b", "c", "d", "e")]
@@ -533,6 +536,8 @@ def main(tier):
                 ties.append(("merge", where, real, mod))
             if t == 0:
                 ck.sample({"merge": where, "real": real, "model": mod})
+        # ---- store-size asymmetries on the plain-pointer and the vector-pointer paths, byte-wise oracle ----
+        c19_extra.explore(ck, rng("C19.store-sizes"), 60 if quick else 3000)
     finally:
         conf.Cas.complexity = saved
     drv.close()
@@ -548,7 +553,20 @@ def main(tier):
                        "pointer (memory) locations and vector-valued bases in merge: oracle only (partial)"]
     ck.trusted += ["harness/c19.py dumps (renderings as leaves, exact scaled complexity)", "compiled Lean driver"]
     return ck.finish("vec.simplify on random child lists (definite terms, nested vecs, top, widened, duplicates) and merge of random map pairs over 5 registers + 2 flag registers, "
-                     "with/without path conditions, under 5 widening/complexity settings; 4 concrete states per pair for the coverage oracle")
+                     "with/without path conditions, under 5 widening/complexity settings; 4 concrete states per pair for the coverage oracle. "
+                     "Store-size pass (harness/c19_extra.py, buckets asym.*): one or two stores per map relative to the same pointer — ordinary, a literal vector of bases, "
+                     "a register holding a vector of bases — every ordered pair of sizes 8/16/32/64 at the same start and at a shifted start (contained, straddling, adjacent), "
+                     "a map overlapping its own earlier store, both argument orders, widening on and off plus a complexity threshold; every byte either map writes "
+                     "(and a byte on either side) at every candidate address is read from the merged map and from both maps and compared on a concrete state")
+
+
+def replay(path):
+    rec = json.load(open(path))
+    if isinstance(rec.get("case"), dict) and "spec" in rec["case"]:
+        return c19_extra.main(path)
+    print(json.dumps(rec, indent=1)[:20000])
+    print("(no automatic replay for this case: re-run `./check C19` with VERIF_SEED=%s to regenerate it)" % rec.get("seed"))
+    return 0
 
 
 if __name__ == "__main__":
